@@ -99,6 +99,37 @@ def malformed_docs(gc, rng, n):
     return docs
 
 
+def fields(v):
+    """The value as plain data, independent of the implementation's __eq__."""
+    import dataclasses
+    return (type(v).__name__,) + dataclasses.astuple(v) if dataclasses.is_dataclass(v) else (type(v).__name__, v)
+
+
+def near_value(gc, key, old, rng):
+    """A value that differs from `old` in as little as possible (one field, or host bits inside the same prefix)."""
+    try:
+        if key == "target_network":
+            parts = str(old.ip).split(".")
+            if len(parts) == 4 and all(p.isdigit() for p in parts) and rng.random() < 0.7:
+                parts[3] = str((int(parts[3]) + rng.choice([1, 5, 128])) % 256)          # same /24 (and shorter) prefix, other host bits
+                return gc.Network(".".join(parts), old.mask)
+            return gc.Network(old.ip, (old.mask + 1) if isinstance(old.mask, int) else 24)
+        if key == "target_service":
+            c = rng.randrange(4)
+            return gc.Service(old.name + ("x" if c == 0 else ""), old.type + ("x" if c == 1 else ""), old.version + ("x" if c == 2 else ""),
+                              (not old.is_local) if c == 3 else old.is_local)
+        if key == "data":
+            c = rng.randrange(4)
+            return gc.Data(old.owner + ("x" if c == 0 else ""), old.id + ("x" if c == 1 else ""), old.size + (1 if c == 2 else 0), old.type + ("x" if c == 3 else ""))
+        if key == "agent_info":
+            return gc.AgentInfo(old.name, old.role + "x") if rng.random() < 0.5 else gc.AgentInfo(old.name + "x", old.role)
+        if key == "request_trajectory":
+            return not old
+    except Exception:
+        pass
+    return None
+
+
 def mutate(gc, a, rng):
     """an action differing from `a` in type or in exactly one parameter"""
     ps = dict(a.parameters)
@@ -110,9 +141,14 @@ def mutate(gc, a, rng):
     if r < 0.5:
         del ps[k]
         return gc.Action(a.action_type, ps)
+    if r < 0.75:
+        v = near_value(gc, k, ps[k], rng)
+        if v is not None and fields(v) != fields(ps[k]):
+            ps[k] = v
+            return gc.Action(a.action_type, ps)
     for _ in range(20):
         v = gen_value(gc, k, rng)
-        if v != ps[k]:
+        if fields(v) != fields(ps[k]):          # NOT the implementation's __eq__: that is what is being checked
             ps[k] = v
             return gc.Action(a.action_type, ps)
     del ps[k]
